@@ -668,6 +668,7 @@ class FnEmitter:
     def __init__(s, em, f):
         s.em = em; s.f = f
         s.regs = {}     # llvm name -> (cname, type)
+        s.p2i = {}      # llvm integer register defined by ptrtoint -> C expression of the pointer
         s.objty = {}    # llvm pointer register -> element bits of the backing array of the alloca it points into
         s.lines = []
         s.decls = []
@@ -823,6 +824,10 @@ class FnEmitter:
         ty = p.parse_type()
         a = p.parse_value(ty); p.expect(','); b = p.parse_value(ty)
         d = s.defreg(dest, ty)
+        if op == 'sub' and isinstance(ty, IntTy) and ty.bits == 64 and a[0] == 'local' and b[0] == 'local' and a[1] in s.p2i and b[1] in s.p2i:
+            # (u64)p - (u64)q of two pointers is their distance: emit it as a pointer difference so that CBMC
+            # sees the offsets (its integer-address model made memmove lengths from std::copy non-constant)
+            s.emit('%s = (u64)(%s - %s);' % (d, s.p2i[a[1]], s.p2i[b[1]])); return
         A = s.V(a); B = s.V(b)
         if isinstance(ty, VecTy) and not A.startswith('r_'):
             t = s.tmp(s.em.cty(ty)); s.emit('%s = %s;' % (t, A)); A = t
@@ -1157,7 +1162,9 @@ class FnEmitter:
                     x = ('TRUNCSRC_%d_%d(%s)' % (s1.bits, s2.bits, x))
                 e = '(%s)%s' % (c2, x)
                 if s2.bits not in (8, 16, 32, 64): e = '(%s)(%s & %dULL)' % (c2, e, (1 << s2.bits) - 1)
-            elif op in ('ptrtoint',): e = '(%s)%s' % (c2, x)
+            elif op in ('ptrtoint',):
+                e = '(%s)%s' % (c2, x)
+                if not isinstance(t1, VecTy) and s2.bits == 64 and dest: s.p2i[dest] = x
             elif op in ('inttoptr',):
                 if atoms and s1.bits in (32, 64): x = 'CTL_%d(%s)' % (s1.bits, x)
                 e = '(ptr_t)%s' % x
